@@ -59,6 +59,8 @@ package logic
 //   3. eval.go      availableAccount honours group-shared accounts from v6 instead of v9 -> access-outside-MAY:acct
 //   4. resources.go fillApplicationCallAccess no longer shares (sender, app) locals     -> unavailable-inside-MUST:local
 //   5. resources.go allowsHolding: created asset usable with ANY account                -> access-outside-MAY:holding
+//   seeded C35-A (allowsApplicationCall skips foreign-app accounts for v7/v8 callees)   -> layer H
+//   seeded C35-B (availableAppBox tests createdApps[running app] instead of [owner])    -> layer G
 //
 // Layer G (v13 foreign box opcodes): app_box_create/put/get/len/del/replace/resize (+ box_* when
 //   the owner is the running app) x running app pre-existing or created in this group (E is the
